@@ -306,8 +306,11 @@ fn build_raw(rng: &mut StdRng, l: &Value) -> Built {
             let enc = encode(rng, items_of(&lay["items"]), &fixed);
             let doc = json_subtree(&enc.values, "");
             let text = serde_json::to_string(&doc).unwrap();
-            let body = [vec![0x00], varint(text.len() as i32), text.into_bytes()].concat();
-            let stream = [varint(body.len() as i32), body].concat();
+            // the two VarInt length prefixes (string length, frame length) are items like any other for the hostile catalogue
+            let strlen = crate::layout::visit_item(rng, &json!({"k":"f","ty":"varint","f":"__strlen"}), varint(text.len() as i32));
+            let body = [vec![0x00], strlen, text.into_bytes()].concat();
+            let framelen = crate::layout::visit_item(rng, &json!({"k":"f","ty":"varint","f":"__framelen"}), varint(body.len() as i32));
+            let stream = [framelen, body].concat();
             Built {
                 // handshake, status request, ping: the status comes after the request; the server closes after the ping
                 batches: vec![vec![], vec![stream], vec![]],
